@@ -899,6 +899,8 @@ class Interp:
                     return len(recv.encode('utf-8')) if isinstance(recv, str) else len(recv)
                 if name == 'is_empty' and not args:
                     return len(recv) == 0
+                if recv == () and len(args) == 1 and isinstance(args[0], str) and name in ('get', 'get_mut', 'get_full', 'get_full_mut2', 'get_key_value', 'contains_key', 'get_index_of'):
+                    return False if name == 'contains_key' else ('ctor', NONE)          # a lookup by name in an empty map
                 if isinstance(recv, tuple) and recv and all(isinstance(x, tuple) and len(x) == 2 for x in recv) and len(args) == 1 and \
                         not (isinstance(args[0], int) and not isinstance(args[0], bool)) and name in ('get', 'get_mut', 'get_full', 'get_full_mut2', 'get_key_value', 'contains_key', 'get_index_of'):
                     # an ordered map modelled as a tuple of (key, value) pairs: lookup by key (a Key struct matches by its text)
